@@ -573,7 +573,8 @@ class TaskScenario(ScenarioData):
                     # No explicit end - derive from:
                     # 1. Predecessors with onstart deps (our END <= their START)
                     # 2. Successors (tasks depending on this - our END <= their START)
-                    latest_end = self.project["end"]  # Default to project end
+                    # Default to the declared project end (not the extended horizon)
+                    latest_end = getattr(self.project, "declaredEnd", None) or self.project["end"]
 
                     # Check onstart dependencies - our END must be before predecessor's START
                     # with gapduration subtracted if specified
